@@ -549,6 +549,24 @@ pub fn obu(obu_type: u8, payload: &[u8], has_size: bool, ext: Option<u8>) -> Vec
     out
 }
 
+/// A temporal unit whose sequence-header OBU is a valid header cut short at a random byte, with
+/// an obu_size that matches the shortened payload (so the cut is inside the header syntax, not in
+/// the OBU framing).
+pub fn truncated_seq_unit(r: &mut Rng) -> Vec<u8> {
+    let full = gen_seq_hdr(r).write();
+    let k = r.usize_below(full.len().max(1));
+    let mut out = Vec::new();
+    if r.chance(1, 2) {
+        out.extend_from_slice(&obu(2, &[], true, None));
+    }
+    out.extend_from_slice(&obu(1, &full[..k], true, None));
+    if r.chance(1, 2) {
+        let n = r.range(1, 12) as usize;
+        out.extend_from_slice(&obu(6, &r.bytes(n), true, None));
+    }
+    out
+}
+
 #[derive(Clone, Debug)]
 pub struct Av1Frame {
     pub bytes: Vec<u8>,
